@@ -26,6 +26,8 @@ import (
 	"sort"
 	"strconv"
 	"strings"
+	"sync"
+	"sync/atomic"
 	"testing"
 	"time"
 
@@ -1107,6 +1109,89 @@ func vC13AdmitCase(r *rand.Rand, bits int) map[string]any {
 	}
 }
 
+// n goroutines record the same key once its backoff has ended; every call reads
+// its own clock value (1 ms apart, far inside one initial interval)
+func vC13RaceCase(r *rand.Rand) map[string]any {
+	init, max := vC13Durations(r)
+	var tick atomic.Int64
+	start := vC13Base.Add(time.Hour)
+	var readings sync.Map
+	fc, err := NewFailureCache(FailureCacheConfig{Size: 64, InitialTTL: init, MaxTTL: max, Now: func() time.Time {
+		n := tick.Add(1)
+		readings.Store(n, true)
+		return start.Add(time.Duration(n) * time.Millisecond)
+	}})
+	if err != nil {
+		panic(err)
+	}
+	defer fc.Stop()
+	g := newVC13Gen(r)
+	zoneKind := r.Intn(2) == 0
+	k := g.qkey()
+	z, zc := g.zone()
+	var slot uint64
+	e := &failureEntry{provenance: "response"}
+	switch r.Intn(4) {
+	case 0:
+		e.streak = ^uint32(0) - uint32(r.Intn(2))
+	case 1:
+		e.streak = 1
+	default:
+		e.streak = uint32(1 + r.Intn(9))
+	}
+	// ended between "just now" and "more than max ago"
+	ago := time.Duration(r.Int63n(int64(max) + int64(max)/4))
+	if r.Intn(3) == 0 {
+		ago = 0
+	}
+	e.retryAfter = start.Add(time.Millisecond).Add(-ago)
+	if zoneKind {
+		e.kind, e.zone = FailureKindZone, normalizeFailureZoneKey(FailureZoneKey{Zone: z.pres(), Qclass: zc})
+		e.provenance = "authority"
+		slot = failureZoneHash(e.zone)
+	} else {
+		e.kind, e.question = FailureKindQuestion, normalizeFailureQuestionKey(k.fkey())
+		slot = failureQuestionHash(e.question)
+	}
+	fc.entries.Add(slot, e)
+	before := vC13EntryCoq(e.kind, e.provenance, e.streak, e.retryAfter, e.question, e.zone)
+	n := 2 + r.Intn(15)
+	hits := make([]FailureHit, n)
+	var wg sync.WaitGroup
+	gate := make(chan struct{})
+	for i := 0; i < n; i++ {
+		wg.Add(1)
+		go func(i int) {
+			defer wg.Done()
+			<-gate
+			if zoneKind {
+				hits[i] = fc.RecordZone(FailureZoneKey{Zone: z.pres(), Qclass: zc}, "authority", nil)
+			} else {
+				hits[i] = fc.RecordQuestion(k.fkey(), "response", nil)
+			}
+		}(i)
+	}
+	close(gate)
+	wg.Wait()
+	distinct := map[string]bool{}
+	for _, h := range hits {
+		distinct[vC13HitCoq(h, true)] = true
+	}
+	var nows []string
+	total := tick.Load()
+	for i := int64(1); i <= total; i++ {
+		nows = append(nows, strconv.FormatInt(int64(start.Add(time.Duration(i)*time.Millisecond).Sub(vC13Base)), 10))
+	}
+	cur, _ := fc.loadEntry(slot)
+	after := vC13EntryCoq(cur.kind, cur.provenance, cur.streak, cur.retryAfter, cur.question, cur.zone)
+	return map[string]any{
+		"k":          "race-recorders",
+		"coq":        fmt.Sprintf("CaseRace %d %d %s [%s] %s %d", int64(init), int64(max), before, strings.Join(nows, ";"), after, len(distinct)),
+		"nontrivial": true,
+		"desc":       map[string]any{"init": init.String(), "max": max.String(), "recorders": n, "before": before, "after": after, "distinct_hits": len(distinct), "ended_ago": ago.String()},
+	}
+}
+
 func TestVerifC13Unit(t *testing.T) {
 	tr := vC13Open(t)
 	defer tr.f.Close()
@@ -1121,6 +1206,9 @@ func TestVerifC13Unit(t *testing.T) {
 	}
 	for i := 0; i < n/2+8; i++ {
 		tr.emit(vC13NewCase(r))
+	}
+	for i := 0; i < n/4+10; i++ {
+		tr.emit(vC13RaceCase(r))
 	}
 	for rep := 0; rep < n/40+3; rep++ {
 		for bits := 0; bits < 16; bits++ {
